@@ -214,6 +214,22 @@ def run(tier, replay=None):
             ctx.known("%s (%d occurrences, e.g. %s)" % (listed[0]["what"], len(known_hits), known_hits[0]))
         else:
             ctx.violate("monitor", "# %s\n" % known_hits[0])
+    # ---- directed case: an event written behind the loopEnd marker at the marker's own tick belongs to "everything after the loop end":
+    # it is due once, on the last pass
+    if not replay:
+        trk = bytes.fromhex("00ff0609") + b"loopStart" + bytes.fromhex("00903c64" + "60803c00" + "00ff0607") + b"loopEnd" + bytes.fromhex("00904864" + "60804800" + "00ff2f00")
+        img = b"MThd" + (6).to_bytes(4, "big") + bytes([0, 0, 0, 1, 0, 96]) + b"MTrk" + len(trk).to_bytes(4, "big") + trk
+        dh = sq.PREFIX + ["loop 1", "loopcount 2", "opendata " + img.hex(), "tickall 200000 " + GRAN]
+        (dio, dmo), = sq.run([dh])
+        devs = sq.parse_events(sq.ev_of(dio[-1])) if dio and dio[-1].startswith("ret=") else []
+        n72 = sum(1 for (tag, st, f) in devs if tag == "E" and f[0] == "9" and f[3].startswith("48"))
+        n60 = sum(1 for (tag, st, f) in devs if tag == "E" and f[0] == "9" and f[3].startswith("3c"))
+        if n60 != 2 or n72 != 1:
+            listed = [k for k in common.load_known() if k.get("status") == "open" and k.get("property") == PROP and k.get("id") == "event-behind-loopend-same-tick"]
+            if listed and n60 == 2 and n72 == 0:
+                ctx.known("%s (directed case: the note-on behind the marker was delivered %d times)" % (listed[0]["what"], n72))
+            else:
+                ctx.violate("monitor", "# loop count 2: the body note-on was delivered %d times (2 expected), the note-on written behind the loopEnd marker at its tick %d times (1 expected)\n%s\n" % (n60, n72, "\n".join(dh)))
     ndiff = sq.compare(ctx, PROP, [h for h, _ in hs], res)
     ctx.cov.update({"evaluations": sum(len(h) for h, _ in hs), "histories": len(hs), "disagreements": ndiff, "monitor_failures": nfail, "exhaustive": False,
                     "traces_validated_against_impl": sum(1 for (io, mo) in res for m in mo if m is not None) - ndiff,
